@@ -1355,11 +1355,14 @@ def _as_increment(old, v):
     """x = x + d written as a plain assignment: report it like x += d (d must not depend on x's old value)."""
     if old is None or not isinstance(old, R) or not isinstance(v, R):
         return None
-    oa = old.single_atom()
-    if oa is None or oa[0] in ("const", "undef") or old.is_const():
+    if old.is_const():
         return None
+    oa = old.single_atom()
+    if oa is not None and oa[0] in ("const", "undef"):
+        return None
+    oatoms = old.atoms()
     d = v - old
-    if T.mentions(d, lambda a: a == oa):
+    if T.mentions(d, lambda a: a in oatoms):
         return None
     if not d.num:
         return None
